@@ -42,7 +42,12 @@ func init() {
 				if sg == "-" {
 					g.SetTransform()
 				} else {
-					g.SetTransform(transformsOfTok(sg)...)
+					ts := transformsOfTok(sg)
+					g.SetTransform(ts...)
+					// the caller's slice is the caller's: what it does with it afterwards must not matter
+					for k := range ts {
+						ts[k] = generate.Aff3{}
+					}
 				}
 			}
 		}
